@@ -8,6 +8,7 @@ mod c11;
 mod c16;
 mod c18;
 mod c19;
+mod c20;
 pub mod c13fm;
 
 pub fn dispatch(ctx: &Ctx, rep: &mut Report) {
@@ -137,6 +138,7 @@ pub fn dispatch(ctx: &Ctx, rep: &mut Report) {
         "C16" => c16::run(ctx, rep),
         "C18" => c18::run(ctx, rep),
         "C19" => c19::run(ctx, rep),
+        "C20" => c20::run(ctx, rep),
         other => {
             eprintln!("unknown check {other}");
             std::process::exit(3);
